@@ -765,3 +765,12 @@ func (e *Engine) havocAll(st *State) {
 		st.heap["$alloc"] = na
 	}
 }
+
+// cellLoc: where the pointee of a pointer to a non-struct value lives: one ghost array per pointee sort, indexed by the pointer.
+func (e *Engine) cellLoc(ref *Term, t types.Type) *Loc {
+	key := "cell:" + smtIdent(e.sortOf(t).Name)
+	if types.IsInterface(t) {
+		key = "cell:iface"
+	}
+	return &Loc{Kind: LIndex, Base: &Loc{Kind: LGlobal, Key: key, T: types.NewArray(t, 0)}, Idx: ref, T: t}
+}
